@@ -1,8 +1,15 @@
-import NdnModel.Svs
+import NdnModel.SvsBytes
 /-  Line protocol for the SVS model:
-    `C18 <selfIdHex> <seq0> <ev>;<ev>;…`   ev ::= r:<entry>|<entry>…  | r:  | u | p | t
+    `C18 <selfIdHex> <seq0> <ev>;<ev>;…`   ev ::= r:<entry>|<entry>…  | r:  | u | p | t | b:<componentHex>[=<lib>]
     entry ::= <idHex or ~>/<seq or ~>
-    answer: one token per event  `<outs>@<local>`  outs ::= - | M | E(<vec>) joined by +  -/
+    `b:` carries the bytes of the name component `name[-2]`; the model decodes them itself
+    (`Ndn.Svs.stepBytes`: generic TLV decoder over the regenerated StateVecWrapper schema); the optional
+    `=<lib>` is what the library's own decoder made of the same bytes (r:<entries> | x:<class>) — a token
+    is prefixed `DECODER-MISMATCH:` when the model's decoder disagrees with it.
+    answer: one token per event  `<outs>@<local>[#<emittedHex>,…]`
+      outs ::= - | M | E(<vec>) joined by +  |  !<exception class> (the handler raised; `b:` only)
+      after `#`: for every emitted vector the bytes of the name component the sync Interest carries
+      (`Ndn.Svs.encodeVector`), or `err:<class>` -/
 namespace Ndn.Drv.C18
 open Ndn Ndn.Svs
 
@@ -21,21 +28,59 @@ def parseEntry (s : String) : Option Entry :=
     pure (i, q)
   | _ => none
 
-def parseEv (s : String) : Option Ev :=
-  if s == "u" then some .undecodable
-  else if s == "p" then some .publish
-  else if s == "t" then some .timer
-  else if s.startsWith "r:" then
-    let body := (s.drop 2).toString
-    if body == "" then some (.recv []) else (body.splitOn "|").mapM parseEntry |>.map .recv
+/-- what the library's own decoder said about the same bytes (cross-check of the model's decoder) -/
+inductive Expect where
+  | decoded (es : List Entry)
+  | raises (cls : String)       -- `StateVecWrapper.parse` raised this class
+
+def parseExpect (s : String) : Option Expect :=
+  if s.startsWith "x:" then some (.raises (s.drop 2).toString)
+  else if s == "r:" then some (.decoded [])
+  else if s.startsWith "r:" then ((s.drop 2).toString.splitOn "|").mapM parseEntry |>.map .decoded
   else none
 
-def runShow (s : State) : List Ev → List String
+def agrees (comp : Bytes) : Expect → Bool
+  | .decoded es => match decodeVectorE comp with | .ok es' => es' == es | .error _ => false
+  | .raises c => match decodeVectorE comp with | .ok _ => false | .error e => e.name == c
+
+def parseEv (s : String) : Option (EvB × Option Expect) :=
+  if s == "u" then some (.ev .undecodable, none)
+  else if s == "p" then some (.ev .publish, none)
+  else if s == "t" then some (.ev .timer, none)
+  else if s.startsWith "r:" then
+    let body := (s.drop 2).toString
+    if body == "" then some (.ev (.recv []), none)
+    else (body.splitOn "|").mapM parseEntry |>.map (fun es => (.ev (.recv es), none))
+  else if s.startsWith "b:" then
+    match (s.drop 2).toString.splitOn "=" with
+    | [h] => (fromHex h).map fun b => (.raw b, none)
+    | [h, x] => do
+      let b ← fromHex h
+      let e ← parseExpect x
+      pure (.raw b, some e)
+    | _ => none
+  else none
+
+def showEmitted : Out → List String
+  | .missing => []
+  | .emit v => match encodeVector v with
+    | .ok b => [toHex b]
+    | .error e => ["err:" ++ e.name]
+
+def runShow (s : State) : List (EvB × Option Expect) → List String
   | [] => []
-  | e :: r =>
-    let (s', o) := step s e
-    let os := if o.isEmpty then "-" else "+".intercalate (o.map showOut)
-    (os ++ "@" ++ showVec s'.loc) :: runShow s' r
+  | (e, x) :: r =>
+    let (s', res) := stepB s e
+    let bad := match e, x with
+      | .raw comp, some ex => !agrees comp ex
+      | _, _ => false
+    let tok := match res with
+      | .error x => "!" ++ x.name ++ "@" ++ showVec s'.loc
+      | .ok o =>
+        let os := if o.isEmpty then "-" else "+".intercalate (o.map showOut)
+        let em := o.flatMap showEmitted
+        os ++ "@" ++ showVec s'.loc ++ (if em.isEmpty then "" else "#" ++ ",".intercalate em)
+    (if bad then "DECODER-MISMATCH:" ++ tok else tok) :: runShow s' r
 
 def handle (args : List String) : String :=
   match args with
